@@ -75,10 +75,51 @@ def enc_proj(proj):
     return " ".join(parts)
 
 
+class PL:
+    """a minimal os.PathLike that returns its string unchanged (pathlib would normalise spellings)"""
+
+    def __init__(self, s):
+        self.s = s
+
+    def __fspath__(self):
+        return self.s
+
+    def __repr__(self):
+        return "PL(%r)" % self.s
+
+
+def materialise(shape, rng):
+    """same declared paths, other Python container types: tuple / list, dict / OrderedDict /
+    MappingProxyType / UserDict / ChainMap, str / PathLike leaves"""
+    import collections
+    import types
+    if isinstance(shape, str):
+        return PL(shape) if rng.random() < 0.3 else shape
+    if isinstance(shape, dict):
+        d = {k: materialise(v, rng) for k, v in shape.items()}
+        k = rng.randint(0, 4)
+        if k == 0:
+            return collections.OrderedDict(d)
+        if k == 1:
+            return types.MappingProxyType(d)
+        if k == 2:
+            return collections.UserDict(d)
+        if k == 3:
+            return collections.ChainMap(d)
+        return d
+    items = [materialise(v, rng) for v in shape]
+    return tuple(items) if rng.random() < 0.4 else items
+
+
 def make_targets(proj):
+    import random
     out = []
+    rng = random.Random(proj["ctseed"]) if proj.get("ctseed") is not None else None
     for t in proj["targets"]:
-        out.append(Target(name=t["name"], inputs=t["inputs"], outputs=t["outputs"], options={},
+        ins, outs = t["inputs"], t["outputs"]
+        if rng is not None:
+            ins, outs = materialise(ins, rng), materialise(outs, rng)
+        out.append(Target(name=t["name"], inputs=ins, outputs=outs, options={},
                           working_dir=t["wd"], protect=set(t["protect"]), spec=t["spec"]))
     return out
 
@@ -135,11 +176,12 @@ class TableHashes:
         path = os.path.join(tmpdir, "spec-hashes.json")
         data = {}
         for i, t in enumerate(proj["targets"]):
-            if t["specflag"] == 0:
+            rec = t.get("hashrec") or ("same" if t["specflag"] == 0 else ("other" if i % 2 == 0 else "none"))
+            if rec == "same":
                 data[t["name"]] = hash_spec(t["spec"])
-            elif i % 2 == 0:
+            elif rec == "other":
                 data[t["name"]] = hash_spec(t["spec"] + "# edited")
-            # else: never recorded
+            # "none": never recorded
         with open(path, "w") as f:
             json.dump(data, f)
         return FileSpecHashes(path)
